@@ -200,28 +200,34 @@ def pull (active : Bool) : List (Item N) → IterSt N → Option (Option N) × L
 (`userset` / `ttu` handler) pulls tuples through the filters and runs ahead of the consumer, which
 resolves the dispatched sub-problems one after the other (`nodeF`).  How far ahead is a scheduling
 matter: `policy rawLeft pendingCount` says whether the producer moves next (it must when nothing is
-pending); the theorems hold for every policy, the driver uses "at most `look` pending".  `steps` bounds
-the loop: every step consumes a raw tuple or a pending child. -/
+pending); the theorems hold for every policy, the driver uses "at most `look` pending".  `iterStep` is one
+move of either side, `iterLoop` repeats it; `steps` bounds the loop (every step consumes a raw tuple or a
+pending child). -/
+def iterStep (nodeF : Option (Vis N) → N → List VOut × Option (Vis N)) (active : Bool) (policy : Nat → Nat → Bool)
+    (raw : List (Item N)) (pending : List (Option N)) (st : IterSt N) :
+    Option (List (Item N) × List (Option N) × IterSt N) :=
+  if !raw.isEmpty && (pending.isEmpty || policy raw.length pending.length) then
+    match pull active raw st with
+    | (some c, raw', st') => some (raw', pending ++ [c], st')
+    | (none, _, st') => some ([], pending, st')
+  else
+    match pending with
+    | [] => none
+    | none :: pending' => some (raw, pending', { st with acc := st.acc ++ [[.err .other]] })
+    | some n :: pending' =>
+      if active then
+        some (raw, pending', { st with vis := (nodeF st.vis n).2, acc := st.acc ++ [(nodeF st.vis n).1] })
+      else
+        some (raw, pending', { st with acc := st.acc ++ [(nodeF none n).1] })
+
 def iterLoop (nodeF : Option (Vis N) → N → List VOut × Option (Vis N)) (active : Bool) (policy : Nat → Nat → Bool) :
     Nat → List (Item N) → List (Option N) → IterSt N → IterSt N
   | 0, raw, pending, st =>
     if raw.isEmpty && pending.isEmpty then st else { st with acc := st.acc ++ [[.err .abort]] }
   | steps + 1, raw, pending, st =>
-    if !raw.isEmpty && (pending.isEmpty || policy raw.length pending.length) then
-      match pull active raw st with
-      | (some c, raw', st') => iterLoop nodeF active policy steps raw' (pending ++ [c]) st'
-      | (none, _, st') => iterLoop nodeF active policy steps [] pending st'
-    else
-      match pending with
-      | [] => st
-      | none :: pending' => iterLoop nodeF active policy steps raw pending' { st with acc := st.acc ++ [[.err .other]] }
-      | some n :: pending' =>
-        if active then
-          let r := nodeF st.vis n
-          iterLoop nodeF active policy steps raw pending' { st with vis := r.2, acc := st.acc ++ [r.1] }
-        else
-          let r := nodeF none n
-          iterLoop nodeF active policy steps raw pending' { st with acc := st.acc ++ [r.1] }
+    match iterStep nodeF active policy raw pending st with
+    | none => st
+    | some (raw', pending', st') => iterLoop nodeF active policy steps raw' pending' st'
 
 /-- what the filtered iterator reports at its end: the remembered error if no tuple passed, nothing
 otherwise (the error is swallowed: the model adds a tainted `false`) -/
